@@ -36,8 +36,8 @@ func runC20(c *Ctx) {
 		}
 		for i := 0; i < named.NumMethods(); i++ {
 			m := named.Method(i)
-			if m.Name() == "Insert" || m.Name() == "Delete" {
-				continue
+			if m.Name() == "Insert" || m.Name() == "Delete" || !m.Exported() {
+				continue // mutators, and unexported helpers (which may legitimately fill a fresh set)
 			}
 			fn := p.SSA.FuncValue(m)
 			if fn == nil || len(fn.Blocks) == 0 {
@@ -149,23 +149,63 @@ func checkHeapAdapter(c *Ctx, p *core.Prog) {
 	if !c.R.Anchor(swap != nil && len(swap.Blocks) > 0, "pq heap Swap") || !c.R.Anchor(push != nil && len(push.Blocks) > 0, "pq heap Push") {
 		return
 	}
-	// every dynamic call of the setIndex field
-	setIndexCalls := func(fn *ssa.Function) []*ssa.Call {
-		var out []*ssa.Call
+	// every dynamic call of the setIndex field, directly or through a helper that only forwards its
+	// (value, index) parameters to the callback under the nil guard
+	type sic struct {
+		at       *ssa.Call
+		val, idx ssa.Value
+		guarded  bool
+		cellOf   ssa.Value // when the helper itself reads items[idx]: the index argument whose cell is reported
+	}
+	var guarded func(call *ssa.Call) bool
+	var setIndexCalls func(fn *ssa.Function, depth int) []sic
+	setIndexCalls = func(fn *ssa.Function, depth int) []sic {
+		var out []sic
 		for _, b := range fn.Blocks {
 			for _, in := range b.Instrs {
 				call, ok := in.(*ssa.Call)
-				if !ok || call.Call.IsInvoke() || call.Call.StaticCallee() != nil {
+				if !ok || call.Call.IsInvoke() {
 					continue
 				}
-				if strings.HasSuffix(core.AP(call.Call.Value), "."+setIndexField) {
-					out = append(out, call)
+				if call.Call.StaticCallee() == nil {
+					if strings.HasSuffix(core.AP(call.Call.Value), "."+setIndexField) && len(call.Call.Args) == 2 {
+						out = append(out, sic{at: call, val: call.Call.Args[0], idx: call.Call.Args[1], guarded: guarded(call)})
+					}
+					continue
+				}
+				h := call.Call.StaticCallee()
+				if depth > 0 || core.FuncPkgPath(h) != pq || len(h.Blocks) == 0 || h == fn {
+					continue
+				}
+				for _, inner := range setIndexCalls(h, depth+1) {
+					// map the helper's parameters back to this call's arguments
+					var v, ix ssa.Value
+					for i, prm := range h.Params {
+						if i < len(call.Call.Args) {
+							if inner.val == ssa.Value(prm) {
+								v = call.Call.Args[i]
+							}
+							if inner.idx == ssa.Value(prm) {
+								ix = call.Call.Args[i]
+							}
+						}
+					}
+					if v != nil && ix != nil {
+						out = append(out, sic{at: call, val: v, idx: ix, guarded: inner.guarded || guarded(call)})
+					} else if ix != nil {
+						// the helper reads the element itself: value = items[its index parameter]
+						if ld, ok := inner.val.(*ssa.UnOp); ok {
+							if ia, ok := ld.X.(*ssa.IndexAddr); ok && strings.HasSuffix(core.AP(ia.X), "."+itemsField) && ia.Index == inner.idx {
+								out = append(out, sic{at: call, idx: ix, cellOf: ix, guarded: inner.guarded || guarded(call)})
+							}
+						}
+					}
 				}
 			}
 		}
 		return out
 	}
-	guarded := func(call *ssa.Call) bool {
+	guarded = func(call *ssa.Call) bool {
 		for _, f := range core.FactsAtInstr(call) {
 			if cmp, ok := f.AsCmp(); ok && cmp.Op == token.NEQ && strings.HasSuffix(core.AP(cmp.X), "."+setIndexField) {
 				if cst, ok := cmp.Y.(*ssa.Const); ok && cst.Value == nil {
@@ -176,7 +216,7 @@ func checkHeapAdapter(c *Ctx, p *core.Prog) {
 		return false
 	}
 	// Swap
-	calls := setIndexCalls(swap)
+	calls := setIndexCalls(swap, 0)
 	reported := map[string]bool{}
 	okSwap := len(calls) > 0
 	why := ""
@@ -193,13 +233,21 @@ func checkHeapAdapter(c *Ctx, p *core.Prog) {
 			}
 		}
 	}
-	for _, call := range calls {
-		if !guarded(call) {
+	for _, sc := range calls {
+		if !sc.guarded {
 			okSwap, why = false, "setIndex is called without the nil guard"
 		}
 		// first arg: load of a[k] made after the stores; second arg: k
-		k := call.Call.Args[1]
-		v := call.Call.Args[0]
+		k := sc.idx
+		v := sc.val
+		if sc.cellOf != nil {
+			// the helper re-reads the cell with the reported index; it must be called after the exchange
+			if lastStore != nil && !instrBeforeI(lastStore, sc.at) {
+				okSwap, why = false, "the element is read before the swap is complete"
+			}
+			reported[core.AP(k)] = true
+			continue
+		}
 		ld, isLd := v.(*ssa.UnOp)
 		if !isLd {
 			okSwap, why = false, "the value reported is not read back from the heap slice"
@@ -221,21 +269,21 @@ func checkHeapAdapter(c *Ctx, p *core.Prog) {
 	c.R.Check(okSwap, "R20.2", "pqHeap.Swap reports, for both swapped cells, the value now stored there with that cell's index", p.Pos(swap.Pos()),
 		"setIndex(a[i], i) and setIndex(a[j], j) after the exchange, under the nil guard", why)
 	// Push
-	calls = setIndexCalls(push)
+	calls = setIndexCalls(push, 0)
 	okPush := len(calls) == 1
 	why = "Push must report the new element exactly once"
-	for _, call := range calls {
-		okPush = guarded(call)
+	for _, sc := range calls {
+		okPush = sc.guarded
 		if !okPush {
 			why = "setIndex is called without the nil guard"
 			break
 		}
 		// arg0 = x (param), arg1 = len(h.a) before the append
-		if call.Call.Args[0] != push.Params[1] {
+		if sc.val != ssa.Value(push.Params[1]) {
 			okPush, why = false, "the value reported is not the pushed element"
 			break
 		}
-		ln, isCall := call.Call.Args[1].(*ssa.Call)
+		ln, isCall := sc.idx.(*ssa.Call)
 		if !isCall || core.AP(ln) == "" || !strings.HasPrefix(core.AP(ln), "len(") || !strings.HasSuffix(core.AP(ln), "."+itemsField+")") {
 			okPush, why = false, "the index reported is not len(h.a) taken before the append"
 			break
@@ -245,7 +293,7 @@ func checkHeapAdapter(c *Ctx, p *core.Prog) {
 			for _, in := range b.Instrs {
 				if ap, ok := in.(*ssa.Call); ok {
 					if bi, ok := ap.Call.Value.(*ssa.Builtin); ok && bi.Name() == "append" {
-						if !instrBeforeI(ln, ap) {
+						if instrBeforeI(ap, ln) || reachesForward(ap.Block(), ln.Block()) && ap.Block() != ln.Block() {
 							okPush, why = false, "the length is read after the element was appended"
 						}
 						if el := singleVarargElem(ap.Call.Args[1]); el != push.Params[1] {
